@@ -158,6 +158,13 @@ func (r *rawResponseWriter) finish(snapshotHeaders http.Header) {
 	case *conformancev1.RawHTTPResponse_Stream:
 		_ = internal.WriteRawStreamContents(contents.Stream, r.respWriter)
 	}
+	// The trailer names were declared above, and a declared trailer also takes
+	// the values of the plain header key of the same name at the end of the
+	// response. A response header with the name of a trailer has already been
+	// sent, so remove it to keep its values from being repeated in the trailers.
+	for _, hdr := range resp.Trailers {
+		r.respWriter.Header().Del(hdr.Name)
+	}
 	internal.AddTrailers(resp.Trailers, r.respWriter.Header())
 }
 
